@@ -4,6 +4,7 @@ import (
 	"encoding/base64"
 	"encoding/json"
 	"fmt"
+	"os"
 	"sort"
 	"strings"
 
@@ -15,6 +16,7 @@ import (
 	"verifharness/drv"
 	"verifharness/jsonv"
 	"verifharness/pipe"
+	"verifharness/tlc"
 	"verifharness/trace"
 	"verifharness/val"
 	"verifharness/work"
@@ -166,15 +168,22 @@ func codecCheck(c *chk.Ctx, enforce string) {
 		}
 	}
 	ev2 := runDrv(c, bin, w.Root, ops2)
-	// ---- events
+	// ---- events, round 1: what the real code produced
+	type lineRef struct {
+		ci, mode int
+		line     string
+	}
+	var prefixes []string
+	var allLines []lineRef
+	lineOfSchema := map[int]string{}
+	vtOf := map[vkey]jsonv.M{}
 	evals := 0
-	var segs []*trace.Segment
 	for ci, cc := range cases {
 		if cc.skipped != "" {
 			continue
 		}
 		tr := jsonv.NewTree(cc.ex.Schema)
-		prefix := schemaLine(cc.ex)
+		lineOfSchema[ci] = schemaLine(cc.ex)
 		tree := func(b []byte) (jsonv.M, bool) {
 			m, err := val.Decode(cc.builtH.Files, cc.top, b)
 			if err != nil {
@@ -185,12 +194,13 @@ func codecCheck(c *chk.Ctx, enforce string) {
 		for _, mode := range modes {
 			v := values[vkey{ci, mode}]
 			vt := tr.Msg(v.ProtoReflect())
-			seg := &trace.Segment{ID: len(segs), Meta: map[string]any{"fv": cc.ex.Fv, "mode": mode}, Prefix: prefix}
+			vtOf[vkey{ci, mode}] = vt
 			add := func(e map[string]any) {
-				seg.Lines = append(seg.Lines, jsonLine(e))
+				allLines = append(allLines, lineRef{ci, mode, jsonLine(e)})
 				evals++
 			}
-			for k, src := range map[int]string{1: "go-http codec", 2: "go-client codec"} {
+			for _, k := range []int{1, 2} {
+				src := map[int]string{1: "go-http codec", 2: "go-client codec"}[k]
 				for _, e := range ev1[fmt.Sprintf("%d/%d", ci, mode*10+k)] {
 					switch e["event"] {
 					case "Codec":
@@ -203,12 +213,15 @@ func codecCheck(c *chk.Ctx, enforce string) {
 								encOK = false
 							}
 						}
-						add(map[string]any{"event": "Form", "src": src, "ok": encOK, "val": vt, "json": jt, "detail": firstN(fmt.Sprint(e["encErr"]), 200)})
+						add(map[string]any{"event": "Form", "src": src, "client": k == 2, "foreign": false, "want": k == 1, "ok": encOK, "val": vt, "json": jt,
+							"detail": firstN(fmt.Sprint(e["encErr"]), 200)})
 						back, ok := tree(unb64s(e["backB64"]))
 						ok = ok && e["decOk"] == true
-						add(map[string]any{"event": "Round", "src": src, "ok": ok, "val": vt, "back": back, "detail": firstN(fmt.Sprint(e["decErr"]), 200)})
+						add(map[string]any{"event": "Round", "src": src, "client": k == 2, "foreign": false, "ok": ok, "val": vt, "back": back,
+							"detail": firstN(fmt.Sprint(e["decErr"]), 200)})
 					case "CodecPanic":
-						add(map[string]any{"event": "Form", "src": src, "ok": false, "val": vt, "json": nullTree, "detail": "panic: " + firstN(fmt.Sprint(e["detail"]), 200)})
+						add(map[string]any{"event": "Form", "src": src, "client": k == 2, "foreign": false, "want": k == 1, "ok": false, "val": vt, "json": nullTree,
+							"detail": "panic: " + firstN(fmt.Sprint(e["detail"]), 200)})
 					case "DriverError":
 						c.Broken("driver: %v", e["detail"])
 					}
@@ -218,38 +231,265 @@ func codecCheck(c *chk.Ctx, enforce string) {
 				switch e["event"] {
 				case "HandlerSaw":
 					back, ok := tree(unb64s(e["valB64"]))
-					add(map[string]any{"event": "Accept", "src": "server request", "ok": ok, "val": vt, "back": back, "detail": ""})
+					add(map[string]any{"event": "Accept", "src": "server request (its own encoding)", "client": false, "foreign": false, "ok": ok, "val": vt, "back": back, "detail": ""})
 				case "Resp":
 					jt, err := jsonv.ParseJSON(unb64s(e["bodyB64"]))
 					ok := err == nil && int(e["status"].(float64)) == 200
 					if err != nil {
 						jt = nullTree
 					}
-					add(map[string]any{"event": "Form", "src": "server response", "ok": ok, "val": vt, "json": jt, "detail": fmt.Sprintf("status %v", e["status"])})
+					add(map[string]any{"event": "Form", "src": "server response", "client": false, "foreign": false, "want": false, "ok": ok, "val": vt, "json": jt,
+						"detail": fmt.Sprintf("status %v", e["status"])})
 				case "ServerPanic":
-					add(map[string]any{"event": "Form", "src": "server response", "ok": false, "val": vt, "json": nullTree, "detail": "server panic"})
+					add(map[string]any{"event": "Form", "src": "server response", "client": false, "foreign": false, "want": false, "ok": false, "val": vt, "json": nullTree, "detail": "server panic"})
 				}
 			}
-			for k, src := range map[int]string{4: "go-http decode of another party's document", 5: "go-client decode of another party's document"} {
-				for _, e := range ev2[fmt.Sprintf("%d/%d", ci, mode*10+k)] {
-					if e["event"] == "Decode" {
-						back, ok := tree(unb64s(e["valB64"]))
-						ok = ok && e["ok"] == true
-						add(map[string]any{"event": "Round", "src": src, "ok": ok, "val": vt, "back": back, "detail": firstN(fmt.Sprint(e["err"]), 200)})
-					}
-				}
-			}
-			// deterministic line order
-			sort.SliceStable(seg.Lines, func(a, b int) bool { return lineRank(seg.Lines[a]) < lineRank(seg.Lines[b]) })
-			segs = append(segs, seg)
 		}
 		if ci%16 == 0 {
 			c.AddSample(map[string]any{"fv": cc.ex.Fv, "modes": modes, "sample_json": string(jsonOf[vkey{ci, 1}])})
 		}
 	}
+	_ = prefixes
+	judge := func(lines []lineRef, expect bool) (map[int]tlcVerdict, map[int]json.RawMessage) {
+		// build the trace: a Schema line whenever the case changes
+		var tl []string
+		idx := map[int]int{} // trace line -> index into lines
+		last := -1
+		for i, lr := range lines {
+			if lr.ci != last {
+				tl = append(tl, lineOfSchema[lr.ci])
+				last = lr.ci
+			}
+			tl = append(tl, lr.line)
+			idx[len(tl)] = i
+		}
+		res := runInventory(c, "Trace_Json", "Trace_Json.cfg", tl, map[string]string{"Enforce": enforce, "Expect": map[bool]string{true: "TRUE", false: "FALSE"}[expect]})
+		vs := map[int]tlcVerdict{}
+		for ln, v := range res.Verdicts {
+			if i, ok := idx[ln]; ok {
+				vs[i] = tlcVerdict{v.OK, v.How}
+			}
+		}
+		ex := map[int]json.RawMessage{}
+		for ln, e := range res.Expects {
+			if i, ok := idx[ln]; ok {
+				ex[i] = e
+			}
+		}
+		return vs, ex
+	}
+	v1, expects := judge(allLines, true)
+	// ---- round 2: the contract form Enc(schema, value), as computed by TLC, produced by "another party"
+	var ops3 []drv.Op
+	for i, raw := range expects {
+		lr := allLines[i]
+		cc := cases[lr.ci]
+		doc := renderCanon(raw)
+		if doc == nil {
+			c.Broken("cannot render the contract form printed by TLC")
+		}
+		b64 := base64.StdEncoding.EncodeToString(doc)
+		ops3 = append(ops3, drv.Op{Op: "decode", Case: lr.ci, Call: lr.mode*10 + 6, Type: cc.top, JSONB64: b64},
+			drv.Op{Op: "decode", Case: lr.ci, Call: lr.mode*10 + 7, Type: cc.topC, JSONB64: b64},
+			drv.Op{Op: "raw", Case: lr.ci, Call: lr.mode*10 + 8, Pkg: cc.pkgH, Verb: "POST", URL: "/api/do",
+				Headers: [][2]string{{"Content-Type", "application/json"}}, BodyB64: b64,
+				Handler: drv.HandlerCfg{Kind: "ok", RespType: cc.top, RespB64: base64.StdEncoding.EncodeToString(val.Det(values[vkey{lr.ci, lr.mode}]))}})
+	}
+	sort.Slice(ops3, func(a, b int) bool {
+		if ops3[a].Case != ops3[b].Case {
+			return ops3[a].Case < ops3[b].Case
+		}
+		return ops3[a].Call < ops3[b].Call
+	})
+	ev3 := runDrv(c, bin, w.Root, ops3)
+	var lines2 []lineRef
+	for ci, cc := range cases {
+		if cc.skipped != "" {
+			continue
+		}
+		tr := jsonv.NewTree(cc.ex.Schema)
+		tree := func(b []byte) (jsonv.M, bool) {
+			m, err := val.Decode(cc.builtH.Files, cc.top, b)
+			if err != nil {
+				return nullTree, false
+			}
+			return tr.Msg(m), true
+		}
+		for _, mode := range modes {
+			vt := vtOf[vkey{ci, mode}]
+			for _, k := range []int{6, 7} {
+				src := map[int]string{6: "go-http decode of the contract form", 7: "go-client decode of the contract form"}[k]
+				for _, e := range ev3[fmt.Sprintf("%d/%d", ci, mode*10+k)] {
+					if e["event"] == "Decode" {
+						back, ok := tree(unb64s(e["valB64"]))
+						ok = ok && e["ok"] == true
+						lines2 = append(lines2, lineRef{ci, mode, jsonLine(map[string]any{"event": "Round", "src": src, "client": k == 7, "foreign": true, "ok": ok, "val": vt, "back": back,
+							"detail": firstN(fmt.Sprint(e["err"]), 200)})})
+						evals++
+					}
+				}
+			}
+			saw := false
+			for _, e := range ev3[fmt.Sprintf("%d/%d", ci, mode*10+8)] {
+				if e["event"] == "HandlerSaw" {
+					back, ok := tree(unb64s(e["valB64"]))
+					lines2 = append(lines2, lineRef{ci, mode, jsonLine(map[string]any{"event": "Accept", "src": "server request in contract form", "client": false, "foreign": true, "ok": ok, "val": vt, "back": back, "detail": ""})})
+					saw = true
+					evals++
+				}
+			}
+			if !saw && len(ev3[fmt.Sprintf("%d/%d", ci, mode*10+8)]) > 0 {
+				lines2 = append(lines2, lineRef{ci, mode, jsonLine(map[string]any{"event": "Accept", "src": "server request in contract form", "client": false, "foreign": true, "ok": false, "val": vt, "back": nullTree,
+					"detail": "the server did not dispatch the contract-form request"})})
+				evals++
+			}
+		}
+	}
+	v2, _ := judge(lines2, false)
+	// ---- verdicts
 	c.Set("cases_outside_domain", nSkipped)
-	judgeSegmentsN(c, "Trace_Json", "Trace_Json.cfg", segs, evals, 60)
+	c.Set("evaluations", evals)
+	c.Set("rule", "one evaluation = one (schema, value, observation) judged by TLC; distinct = distinct (construct, context, value class, observation source)")
+	accepted, bad := 0, 0
+	distinct := map[string]bool{}
+	table := map[string]int{}
+	report := func(lines []lineRef, vs map[int]tlcVerdict) {
+		for i, lr := range lines {
+			v, ok := vs[i]
+			if !ok {
+				continue // the line's property group is not enforced by this check
+			}
+			cc := cases[lr.ci]
+			var e map[string]any
+			_ = json.Unmarshal([]byte(lr.line), &e)
+			distinct[fmt.Sprintf("%v|%d|%v", cc.ex.Fv, lr.mode, e["src"])] = true
+			table[fmt.Sprintf("%v | %v | %v | %v | %s", cc.ex.Fv["construct"], cc.ex.Fv["context"], e["event"], e["src"], v.How)]++
+			if v.OK {
+				accepted++
+				if v.How != "contract" {
+					c.Observe(v.How)
+				}
+				continue
+			}
+			bad++
+			if bad <= 25 {
+				rp := c.WriteReplay(map[string]any{"property": c.ID, "spec": "Trace_Json", "dev": c.Dev(), "fv": cc.ex.Fv, "value_mode": lr.mode,
+					"schema": json.RawMessage(lineOfSchema[lr.ci]), "rejected_at": json.RawMessage(lr.line), "seed": c.Seed})
+				c.Violation(rp, fmt.Sprintf("%v value class %d, %v (%v): %s", cc.ex.Fv, lr.mode, e["event"], e["src"], firstN(fmt.Sprint(e["detail"]), 200)))
+			}
+		}
+	}
+	report(allLines, v1)
+	report(lines2, v2)
+	if tf := os.Getenv("VERIF_TABLE"); tf != "" {
+		var rows []string
+		for k, n := range table {
+			rows = append(rows, fmt.Sprintf("%s | %d", k, n))
+		}
+		sort.Strings(rows)
+		_ = os.WriteFile(tf, []byte(strings.Join(rows, "\n")+"\n"), 0o644)
+	}
+	c.AddInt("traces_validated_against_impl", int64(accepted))
+	c.Set("distinct_nontrivial", len(distinct))
+	c.Infof("TLC judged %d observations: %d accepted, %d rejected (Dev = %v)", accepted+bad, accepted, bad, c.Dev())
 	c.Done()
+}
+
+type tlcVerdict struct {
+	OK  bool
+	How string
+}
+
+// renderCanon renders the canonical tree TLC printed (objects as sets of <<key, value>> pairs)
+// as a JSON document.
+func renderCanon(raw json.RawMessage) []byte {
+	var n map[string]any
+	if json.Unmarshal(raw, &n) != nil {
+		return nil
+	}
+	var sb strings.Builder
+	var render func(n map[string]any) bool
+	render = func(n map[string]any) bool {
+		switch n["t"] {
+		case "obj":
+			ms, _ := n["m"].([]any)
+			sb.WriteString("{")
+			for i, kv := range ms {
+				p, _ := kv.([]any)
+				if len(p) != 2 {
+					return false
+				}
+				if i > 0 {
+					sb.WriteString(",")
+				}
+				k, _ := json.Marshal(p[0])
+				sb.Write(k)
+				sb.WriteString(":")
+				v, _ := p[1].(map[string]any)
+				if !render(v) {
+					return false
+				}
+			}
+			sb.WriteString("}")
+		case "arr":
+			es, _ := n["e"].([]any)
+			sb.WriteString("[")
+			for i, e := range es {
+				if i > 0 {
+					sb.WriteString(",")
+				}
+				v, _ := e.(map[string]any)
+				if !render(v) {
+					return false
+				}
+			}
+			sb.WriteString("]")
+		case "str":
+			k, _ := json.Marshal(n["v"])
+			sb.Write(k)
+		case "num", "bool":
+			sb.WriteString(fmt.Sprint(n["v"]))
+		case "null":
+			sb.WriteString("null")
+		default:
+			return false
+		}
+		return true
+	}
+	if !render(n) {
+		return nil
+	}
+	return []byte(sb.String())
+}
+
+// runInventory runs a Trace_* spec in inventory mode over the lines and returns TLC's result.
+func runInventory(c *chk.Ctx, module, cfg string, lines []string, consts map[string]string) *tlc.Result {
+	f, err := os.CreateTemp("", "vh-trace-*.ndjson")
+	if err != nil {
+		c.Broken("%v", err)
+	}
+	defer os.Remove(f.Name())
+	for _, l := range lines {
+		fmt.Fprintln(f, l)
+	}
+	f.Close()
+	if d := os.Getenv("VERIF_DUMP_TRACE"); d != "" {
+		b, _ := os.ReadFile(f.Name())
+		_ = os.WriteFile(d, b, 0o644)
+	}
+	cs := map[string]string{"Dev": trace.DevSet(c.Dev()), "Inventory": "TRUE"}
+	for k, v := range consts {
+		cs[k] = v
+	}
+	res, err := tlc.Exec(tlc.Run{Module: module, Config: cfg, Workers: 1, Constants: cs, Files: map[string]string{"trace.ndjson": f.Name()}})
+	if err != nil {
+		c.Broken("tlc: %v", err)
+	}
+	if !res.OK {
+		c.Broken("TLC failed on the trace: %s", firstN(res.Error, 1500))
+	}
+	c.AddInt("trace_states", res.Distinct)
+	return res
 }
 
 func lineRank(l string) int {
